@@ -154,9 +154,40 @@ def lift_located():
     return {"confirmed": False}
 
 
+def lift_token_copy():
+    """copy / deepcopy of tokens and of a parsed document: the copied tokens must report the same
+    offsets, line and column."""
+    import copy
+    from graphql import parse
+    from graphql.language import Lexer, Source, TokenKind
+    text = "{\n  a\r\n    bb(x: \"s\")\r}\n\n query Q { c }"
+    lx = Lexer(Source(text))
+    toks = []
+    while True:
+        t = lx.advance()
+        toks.append(t)
+        if t.kind == TokenKind.EOF:
+            break
+    doc = parse(text)
+    pairs = [(t, copy.copy(t)) for t in toks] + [(t, copy.deepcopy(t)) for t in toks]
+    d2 = copy.deepcopy(doc)
+    for a, b in zip(doc.definitions, d2.definitions):
+        pairs += [(a.loc.start_token, b.loc.start_token), (a.loc.end_token, b.loc.end_token)]
+    for a, b in pairs:
+        fa = (a.kind, a.start, a.end, a.line, a.column, a.value)
+        fb = (b.kind, b.start, b.end, b.line, b.column, b.value)
+        if fa != fb:
+            return {"confirmed": True, "entry": "copy.copy / copy.deepcopy of a token",
+                    "input": {"source": text, "token": repr(a)},
+                    "observed": f"the copy reports (kind, start, end, line, column, value) = {fb!r}, the original {fa!r}"}
+    return {"confirmed": False}
+
+
 def lift(model, req):
     if "located_error" in str(req.get("target", "")):
         return lift_located()
+    if "Token.__copy__" in str(req.get("target", "")).replace(":", "."):
+        return lift_token_copy()
     for body in find_bodies(model, []):
         f = check_body(body)
         if f:
